@@ -240,6 +240,20 @@ package fsm
 //@   ensures[notindexed] result == nil && s.height >= 2 && txHash != "" ==> !txIndexed(s.store, txHash)
 //@   ensures[window] result == nil && s.height >= 2 && tx.Memo != RLPV2Indicator ==> tx.CreatedHeight <= s.height + BlockAcceptanceRange && tx.CreatedHeight + BlockAcceptanceRange >= s.height
 
+// ---- C19: a panic while a block is applied is an error, not a crash ---------------------------------------------------
+// ApplyBlock runs on blocks that came off the wire. Its recovery handler is registered before any of the block is
+// looked at, and when it catches a panic it REPORTS it: the error result is set, so the callers (which check nothing
+// but that error before they use the returned header) reject the block instead of going on with a nil header.
+// The handler is checked for both answers of recover() - nil (normal return) and non-nil (panicking).
+//@ func (*StateMachine).ApplyBlock$1
+//@   ensures[reported] !isnil(resultof(recover)) ==> !isnil(err)
+//@ func (*StateMachine).ApplyBlock
+//@   modifies *
+//@   callsite Store requires[guarded] deferred(ApplyBlock$1)
+//@   callsite BeginBlock requires[guarded] deferred(ApplyBlock$1)
+//@   callsite ApplyTransactions requires[guarded] deferred(ApplyBlock$1)
+//@   callsite EndBlock requires[guarded] deferred(ApplyBlock$1)
+
 // ---- C07: a failed transaction leaves no trace -----------------------------------------------------------
 //@ func (*StateMachine).Store
 //@   pure
@@ -418,6 +432,9 @@ package fsm
 //@   modifies *
 // (CheckTx only ever adds to the batch verifier: ASSUMED - several of its callees are outside the frame inference)
 //@   assumed[batchgrows] batchVerifier != nil ==> batchVerifier.count >= old(batchVerifier.count)
+// C06: the replay check looks up the very hash CheckTx was given for the submitted bytes (the hash the de-duplicator
+// and the index use) - for every transaction, whatever its self-declared created height says
+//@   callsite CheckReplay requires[submittedhash] callee.txHash == txHash
 //@   ensures[authorized] isnil(err) && !result.plugin ==> !isnil(result.sender) && authorizedFor(result.msg, addrOf(result.sender))
 //@   ensures[stakesigner] isnil(err) && !result.plugin && typeis(result.msg, *MessageStake) ==> bytes(dyn(result.msg, *MessageStake).Signer) == addrOf(result.sender)
 //@   ensures[editsigner] isnil(err) && !result.plugin && typeis(result.msg, *MessageEditStake) ==> bytes(dyn(result.msg, *MessageEditStake).Signer) == addrOf(result.sender)
@@ -735,6 +752,10 @@ package fsm
 //@   requires[percent] percent <= 100 && p != nil && p.MaxSlashPerCommittee <= 100
 //@   loop 1 invariant[conserve] drift(s) == old(drift(s)) && acctBal() == old(acctBal()) && poolBal() == old(poolBal()) && p.MaxSlashPerCommittee <= 100
 //@   ensures[conserve] result == nil ==> drift(s) == old(drift(s)) && acctBal() == old(acctBal()) && poolBal() == old(poolBal())
+// C12 (no wedge): a slash list may name a validator that no longer exists (it finished unstaking, or an earlier slash
+// took its whole stake): that entry is SKIPPED - the only error this function ever reports is one SlashValidator gave,
+// so a stale list cannot make begin-block fail at the end of a non-sign window
+//@   ensures[skipmissing] result == nil || result == resultof(SlashValidator)
 //@ func (*StateMachine).SlashNonSigners
 //@   requires[params] wfValParams(params)
 //@   ensures[conserve] result == nil ==> drift(s) == old(drift(s)) && acctBal() == old(acctBal()) && poolBal() == old(poolBal())
@@ -778,6 +799,10 @@ package fsm
 // and only grows
 //@ func (*StateMachine).HandleDexBatchOrders
 //@   loop 1 invariant[reserve] *x > 0
+// the payout pass: whatever an iteration takes out of the liquidity pool it credits to the order's account before the
+// next order is looked at - a payout that cannot be credited ends the whole batch with an error (the block's writes are
+// dropped), it is never skipped with the pool already debited
+//@   loop 2 iterensures[paidout] poolSum(s) + acctSum(s) == athead(poolSum(s) + acctSum(s)) && supTotal(s) == athead(supTotal(s))
 //@ func (*StateMachine).EventDexSwap
 //@   trusted
 //@   modifies lib.EventsTracker.Events
@@ -785,11 +810,23 @@ package fsm
 // ---- C13: the shared historical validator cache holds committed heights only ----------------------------------
 // a historical view consults (and later fills) the shared cache only for a height strictly below the working
 // height: the list for the working height itself is still being built by the block in progress
+// Initialize binds the store and height; on a non-genesis store it only reads the previous block. ASSUMED (its genesis
+// branch imports a whole genesis file and is not under contract): the cache object stays the machine's own, and outside
+// genesis the validator list is not touched
+//@ func (*StateMachine).Initialize
+//@   modifies *
+//@   assumed[cachekept] s.cache == old(s.cache) && (!genesis ==> s.cache.liveValidators == old(s.cache.liveValidators))
 //@ func newStateMachine
 //@   ensures[own] isnil(result1) ==> result0 != nil && fresh(result0)
+//@   ensures[owncache] isnil(result1) ==> result0.cache != nil && fresh(result0.cache) && result0.cache.liveValidators == nil
 //@ func (*StateMachine).TimeMachine
 //@   callsite RLock requires[pastonly] height < s.height
 //@   ensures[ownview] isnil(result1) && old(s.height) != 0 ==> result0 != nil && fresh(result0)
+// C10: the view of a height observes the state COMMITTED at that height. Its validator list is therefore either loaded
+// lazily from its own read-only store, or is an entry of the shared cache of committed heights (consulted for heights
+// strictly below the working height only - `pastonly`) - never the working machine's private list, which follows the
+// uncommitted writes of the block in progress
+//@   ensures[ownlist] isnil(result1) && old(s.height) != 0 ==> result0.cache != nil && fresh(result0.cache) && (result0.cache.liveValidators == nil || (exists k uint64 :: indom(s.cache.sharedCache.sets, k) && s.cache.sharedCache.sets[k] == result0.cache.liveValidators))
 // the committee of a height - the tip included - is derived by a state machine over a read-only view of the COMMITTED
 // state of that height, never by the working state machine itself (whose store holds the block in progress and whose
 // validator list may already be cached)
@@ -800,6 +837,7 @@ package fsm
 // in the distribution pass, every accepted deposit of a locally settled batch is taken out of the holding pool
 // (whatever its pro-rata share rounds to), so the holding pool keeps matching the operations still pending
 //@ func (*StateMachine).handleBatchDeposit
+//@   callsite handleCappedBatchDeposit requires[sameledger] callee.local == local && callee.x == x && callee.y == y && callee.chainId == chainId
 //@   loop 3 iterensures[moved] accepted[i] && local ==> poolBal(wrap64(chainId + HoldingPoolAddend)) == athead(poolBal(wrap64(chainId + HoldingPoolAddend))) - deposit.Amount
 
 // ---- C20: escrowed orders are paid out once, to the locked buyer, and locks do not move tokens -------------------
@@ -923,6 +961,11 @@ package fsm
 // lowest existing provider, a locally escrowed candidate is refunded: the holding pool gives up exactly the candidate's
 // total - not just its first deposit - so nothing stays behind without a pending deposit.
 //@ func (*StateMachine).handleCappedBatchDeposit
+// `local` says which of the two ledgers x / y is this chain's own pool: every step of a capped deposit - re-applying
+// the incumbents, the newcomer, and the forced withdrawal of the evicted provider, which PAYS OUT of the pool - works on
+// the same side as the batch being handled, and on the same two ledgers
+//@   callsite handleBatchWithdraw requires[sameledger] callee.local == local && callee.x == x && callee.y == y && callee.p == p
+//@   callsite handleBatchDeposit requires[sameledger] callee.local == local && callee.x == x && callee.y == y && callee.p == p
 //@   loop 3 iterensures[fullrefund] local && athead(len(p.Points)) >= lib.MaxLiquidityProviders && athead(lowest) != nil && lowest == athead(lowest) && share <= athead(lowest.Points) ==> poolBal(wrap64(chainId + HoldingPoolAddend)) == athead(poolBal(wrap64(chainId + HoldingPoolAddend))) - newcomer.amount
 
 // ---- C06 / C04: cleaning up a finished vesting schedule touches the schedule only --------------------------------------
